@@ -13,7 +13,6 @@
 // harness: k_reflow_3x1_to_2 props=C01,C02,C10 fns=::reflow,Reflow<I>,Line::expand,Line::trailers kind=bounded tier=thorough timeout=1800 obligation="reflow/E1,E2+logical text preserved" bound="3 lines of width 1 -> width 2, every content over {blank, a} and every wrap-mark assignment (enumerated concretely)"
 // harness: k_reflow_3x2_to_3 props=C01,C02,C10 fns=::reflow,Reflow<I>,Line::expand,Line::trailers kind=bounded tier=thorough timeout=3600 obligation="reflow/E1,E2+logical text preserved" bound="3 lines of width 2 -> width 3, every content over {blank, a} and every wrap-mark assignment (enumerated concretely)"
 // harness: k_reflow_collect props=C01,C02,C10 fns=::reflow,Reflow<I>,Line::expand,Line::trailers kind=bounded tier=quick timeout=600 obligation="reflow(= Reflow.collect() + width assertion)" bound="one blank row of width 2 -> width 1"
-// harness: k_resize_cursor props=C10,C16 fns=::reflow,Reflow<I>,Line::expand,Line::trailers kind=bounded tier=thorough timeout=2400 obligation="Buffer::resize(cursor stays on its character; text above the cursor's logical line unchanged)" bound="six concrete (rows, lines, new cols, new rows) cases, old width 2, symbolic cells, wrap marks and cursor"
 #[cfg(kani)]
 mod verif_kani_buffer {
     use super::*;
@@ -305,55 +304,4 @@ mod verif_kani_buffer {
     }
 
 
-    fn resize_case(rows: usize, total: usize, new_cols: usize, new_rows: usize) {
-        let mut b = Buffer::new(2, rows, None, None);
-        b.lines.clear();
-        let mut i = 0;
-        while i < total {
-            b.lines.push(any_line(2));
-            i += 1;
-        }
-        let last = b.lines.len() - 1;
-        b.lines[last].wrapped = false;
-        let ccol: usize = kani::any();
-        let crow: usize = kani::any();
-        kani::assume(ccol < 2 && crow < rows);
-        let off = total - rows;
-        let ch = b.lines[off + crow].cells[ccol].char();
-        kani::assume(ch != ' ');
-        let mut first = off + crow;
-        while first > 0 && b.lines[first - 1].wrapped {
-            first -= 1;
-        }
-        let above_before = logical(&b.lines[..first]);
-        let (nc, nr) = b.resize(new_cols, new_rows, (ccol, crow));
-        // [C02] geometry
-        assert!(b.cols == new_cols && b.rows == new_rows && b.lines.len() >= new_rows);
-        assert!(nc < new_cols && nr < new_rows);
-        let noff = b.lines.len() - new_rows;
-        // [C10] the cursor is still on the same character
-        assert!(b.lines[noff + nr].cells[nc].char() == ch);
-        // [C10] everything above the cursor's logical line is unchanged
-        let mut nfirst = noff + nr;
-        while nfirst > 0 && b.lines[nfirst - 1].wrapped {
-            nfirst -= 1;
-        }
-        let above_after = logical(&b.lines[..nfirst]);
-        assert!(same_text(&above_before, &above_after));
-    }
-
-    #[kani::proof]
-    #[kani::unwind(10)]
-    fn k_resize_cursor() {
-        let which: u8 = kani::any();
-        match which % 6 {
-            0 => resize_case(1, 2, 1, 1),
-            1 => resize_case(2, 2, 3, 1),
-            2 => resize_case(2, 3, 1, 2),
-            3 => resize_case(1, 3, 3, 3),
-            4 => resize_case(2, 3, 3, 2),
-            _ => resize_case(2, 2, 1, 3),
-        }
-        kani::cover!(which % 6 == 2);
-    }
 }
